@@ -43,7 +43,7 @@ namespace {
 // RecvFrom fills the WHOLE destination buffer with the poison byte, then copies the armed datagram.
 class PoisonSocket: public ola::network::UDPSocketInterface {
  public:
-  PoisonSocket() : armed(false), poison(0), overlay_prev(false), kernel(false), real(NULL) {}
+  PoisonSocket() : armed(false), poison(0), overlay_prev(false), kernel(false), real(NULL), src_octet(2) {}
   ~PoisonSocket() { delete real; }
   bool Init() { return true; }
   bool Bind(const IPV4SocketAddress &) { return true; }
@@ -74,7 +74,7 @@ class PoisonSocket: public ola::network::UDPSocketInterface {
       bool ok;
       { c06::KernelMode km; ok = real->RecvFrom(buffer, data_read, source); }
       IPV4Address ksrc;
-      IPV4Address::FromString("10.0.0.2", &ksrc);
+      IPV4Address::FromString("10.0.0." + vh::str(src_octet), &ksrc);
       *source = IPV4SocketAddress(ksrc, 6454);
       return ok;
     }
@@ -87,7 +87,7 @@ class PoisonSocket: public ola::network::UDPSocketInterface {
     if (n) memcpy(buffer, dgram.data(), n);
     *data_read = static_cast<ssize_t>(n);
     IPV4Address src;
-    IPV4Address::FromString("10.0.0.2", &src);
+    IPV4Address::FromString("10.0.0." + vh::str(src_octet), &src);
     *source = IPV4SocketAddress(src, 6454);
     return true;
   }
@@ -100,6 +100,7 @@ class PoisonSocket: public ola::network::UDPSocketInterface {
   bool armed;
   uint8_t poison;
   bool overlay_prev;
+  unsigned src_octet;   // the datagram's source is 10.0.0.<src_octet>
   bool kernel;
   ola::network::UDPSocket *real;
   vector<uint8_t> dgram, prev;
@@ -112,11 +113,21 @@ struct Twin {
   std::auto_ptr<ArtNetNodeImpl> node;
   DmxBuffer buf, buf2;
   vector<string> ev;
-  Twin() : sock(NULL) {}
+  bool tx;   // callbacks transmit while the datagram is still being dispatched
+  Twin() : sock(NULL), tx(false) {}
+  // what a plugin may do from inside a callback: send packets of its own (their bytes are not part of the observation)
+  void transmit(unsigned port) {
+    if (!tx) return;
+    size_t k = sock->sent.size();
+    node->SendPoll();
+    node->SendDMX(0, buf);
+    node->SendTod(port, UIDSet());
+    sock->sent.resize(k);
+  }
 
-  void on_data(unsigned port) { ev.push_back("D" + vh::str(port)); }
-  void on_discover(unsigned port) { ev.push_back("Q" + vh::str(port)); }
-  void on_flush(unsigned port) { ev.push_back("F" + vh::str(port)); }
+  void on_data(unsigned port) { ev.push_back("D" + vh::str(port)); transmit(port); }
+  void on_discover(unsigned port) { ev.push_back("Q" + vh::str(port)); transmit(port); }
+  void on_flush(unsigned port) { ev.push_back("F" + vh::str(port)); transmit(port); }
   void on_rdm(unsigned port, RDMRequest *req, RDMCallback *cb) {
     vector<uint8_t> b(21);
     req->DestinationUID().Pack(&b[0], 6);
@@ -162,6 +173,7 @@ struct Twin {
     if (f.size() > 6 && vh::num(f[6]) < 16) node->SetOutputPortUniverse(1, vh::num(f[6]));
     c06::buf_init(&buf, f[4]);
     c06::buf_init(&buf2, f.size() > 7 ? f[7] : "none");
+    tx = f.size() > 8 && f[8] == "1";
     DmxBuffer *bufs[2] = {&buf, &buf2};
     for (unsigned p = 0; p < 2; p++) {
       node->SetDMXHandler(p, bufs[p], ola::NewCallback(this, &Twin::on_data, p));
@@ -213,7 +225,16 @@ string do_artnet(const vector<string> &a) {
   t[3].sock->kernel = true;
   c06::Trace tr;
   for (size_t k = 2; k < a.size(); k++) {
-    vector<uint8_t> d = vh::unhex(a[k]);
+    // optional prefix s<k>. : the datagram comes from 10.0.0.(2+k)
+    string tok = a[k];
+    unsigned octet = 2;
+    if (tok.size() > 2 && tok[0] == 's') {
+      size_t dot = tok.find('.');
+      octet = 2 + vh::num(tok.substr(1, dot - 1));
+      tok = tok.substr(dot + 1);
+    }
+    for (int i = 0; i < 4; i++) t[i].sock->src_octet = octet;
+    vector<uint8_t> d = vh::unhex(tok);
     vector<vector<uint8_t> > tx0, tx1, tx2;
     string o0 = t[0].deliver(c06::POISON[0], d, &tx0);
     string o1 = t[1].deliver(c06::POISON[1], d, &tx1);
@@ -225,6 +246,8 @@ string do_artnet(const vector<string> &a) {
     string o3 = t[3].deliver(c06::POISON[1], d, &tx3);
     if (o3 != o0 || tx3 != tx0) o1 += "|kerneldiff";
     tr.add(o0, o1);
+    // the node's outputs: callbacks run / packets sent, and the DMX data of both output ports
+    tr.out(o0.substr(0, o0.find("|s:")));
   }
   t[0].teardown();
   t[1].teardown();
